@@ -22,6 +22,8 @@ func c14Specs(tier string) []*Spec {
 		add("default/d7", defaultCfg, 7, 3)
 		add("iv1/d6", iv(1), 6, 3)
 		add("iv7/d6", iv(7), 6, 3)
+		specs = append(specs, &Spec{ID: "C14", Name: "cold-tools/d6", Cfg: defaultCfg, Keys: keys, Vals: bs("x"), MaxDepth: 6, MaxMaint: 3, Weight: 8,
+			Alphabet: Alpha{Writes: true, Save: true, ColdDelTo: true, ColdDelFrom: true, MaxVersions: 3}.Ops, Oracles: []Oracle{oracleVersions([]byte("a"))}, Strict: true})
 		add("iv7-setter/d6", Cfg{Fast: true, IVSet: true, IV: 7, IVSetter: true}, 6, 3)
 		add("nofast/d6", noFast, 6, 3)
 		add("flush150/d6", flush, 6, 3)
